@@ -349,6 +349,40 @@ func C06(g *ref.Grammar, mk func() Parser, n, nsw int) {
 	rt.Reach("done")
 }
 
+// C06Reuse: the same comparison on parsers that have already been used (first input, Reset,
+// second input): whatever the memo table holds after the first parse must not show.
+func C06Reuse(g *ref.Grammar, mk func() Parser, n1, n2, nsw int) {
+	in1 := NewInput("ina", n1, nsw)
+	in2 := NewInput("inb", n2, nsw)
+	pm := start(mk, in1, true, -1)
+	pn := start(mk, in1, false, -1)
+	ok1m, ok1n := pm.Parse(-1), pn.Parse(-1)
+	rt.Assert("first/verdict/memo-vs-nomemo", ok1m == ok1n)
+	for _, p := range []Parser{pm, pn} {
+		for j, v := range in2.Sw {
+			p.SetSw(j, v)
+		}
+		p.Reset(in2.S)
+	}
+	okm, okn := pm.Parse(-1), pn.Parse(-1)
+	r := ref.Run(g, 0, in2.R, in2.Sw)
+	rt.Assume(!r.Aborted)
+	rt.ObserveBool("ok", okm)
+	rt.Assert("reuse/verdict/memo-vs-nomemo", okm == okn)
+	rt.Assert("reuse/verdict/ref", okm == r.OK)
+	if okm && okn {
+		tm := pm.Tokens()
+		rt.Assert("reuse/tokens/memo-vs-nomemo", sameToks(tm, pn.Tokens()))
+		rt.Assert("reuse/tokens/ref", sameToks(tm, r.Toks))
+	}
+	if !okm && !okn {
+		mm, mn := pm.MaxTok(), pn.MaxTok()
+		rt.Assert("reuse/error-token/memo-vs-nomemo", mm.Rule == mn.Rule && mm.B == mn.B && mm.E == mn.E)
+		rt.Assert("reuse/error-token/ref", mm.Rule == errRule(r.Max) && mm.B == r.Max.B && mm.E == r.Max.E)
+	}
+	rt.Reach("done")
+}
+
 func errRule(t ref.Tok) string {
 	if t.Rule == "" {
 		return "Unknown"
